@@ -900,3 +900,99 @@ func c18LastFragmentEndsHeaders(c *Ctx) {
 		c.Unresolved("C18.W11", fmt.Sprintf("HEADERS/CONTINUATION writes inside the splitting loops (found %d)", n))
 	}
 }
+
+// c18EncodeAndWriteAtomic (C18.W12 / C02.R16): HPACK table order is wire order.
+// Every header block changes the shared encoder's dynamic table; the peer's decoder applies the same changes in the
+// order in which the blocks *arrive*. Streams of one connection are written by different goroutines, so encoding a block
+// and putting its frames on the socket must be one critical section of the connection's mutex - otherwise block B,
+// encoded after A, can reach the wire first and the peer resolves B's indexed fields against a table that does not have
+// A's insertions yet: header values of one exchange show up in another one, for the rest of the connection. Clause: in
+// the methods of the M* connection types, every call that encodes with the connection's HPACK encoder (reaches
+// Encoder.WriteField and does not write itself) and every HEADERS/CONTINUATION write that follows it execute under one
+// hold of the same mutex (`mu` or `hmu`): both are dominated by its Lock and no explicit Unlock lies between them.
+func c18EncodeAndWriteAtomic(c *Ctx, rule string) {
+	pkg := "pkg/module/http2"
+	writeField := map[*ssa.Function]bool{}
+	for fn := range c.all {
+		if fn.Name() == "WriteField" && fn.Signature.Recv() != nil && strings.HasSuffix(fn.Signature.Recv().Type().String(), "hpack.Encoder") {
+			writeField[fn] = true
+		}
+	}
+	isWrite := func(in ssa.Instruction) bool {
+		ci, ok := in.(*ssa.Call)
+		if !ok {
+			return false
+		}
+		switch methodName(ci.Common()) {
+		case "writeHeaders", "WriteHeaders", "writeContinuation", "WriteContinuation":
+			return true
+		}
+		return false
+	}
+	type memo map[*ssa.Function]bool
+	reach := func(m memo, leaf func(f *ssa.Function, in ssa.Instruction) bool) func(f *ssa.Function, d int) bool {
+		var rec func(f *ssa.Function, d int) bool
+		rec = func(f *ssa.Function, d int) bool {
+			if v, ok := m[f]; ok {
+				return v
+			}
+			m[f] = false
+			if f == nil || len(f.Blocks) == 0 || f.Pkg == nil || !strings.HasSuffix(f.Pkg.Pkg.Path(), pkg) || d > 6 {
+				return false
+			}
+			r := false
+			forEachInstr(f, true, func(g *ssa.Function, in ssa.Instruction) {
+				if leaf(g, in) {
+					r = true
+				}
+				if ci, ok := in.(ssa.CallInstruction); ok {
+					if callee := ci.Common().StaticCallee(); callee != nil && rec(callee, d+1) {
+						r = true
+					}
+				}
+			})
+			m[f] = r
+			return r
+		}
+		return rec
+	}
+	encodes := reach(memo{}, func(_ *ssa.Function, in ssa.Instruction) bool {
+		ci, ok := in.(ssa.CallInstruction)
+		return ok && writeField[ci.Common().StaticCallee()]
+	})
+	writes := reach(memo{}, func(_ *ssa.Function, in ssa.Instruction) bool { return isWrite(in) })
+	n := 0
+	ord := ordCounter{}
+	for _, fn := range c.PkgFuncs(pkg) {
+		if fn.Parent() != nil || fn.Signature.Recv() == nil || !strings.HasPrefix(shortTypeName(fn.Signature.Recv().Type()), "M") {
+			continue
+		}
+		var encs, wrs []ssa.Instruction
+		forEachInstr(fn, false, func(_ *ssa.Function, in ssa.Instruction) {
+			call, ok := in.(*ssa.Call)
+			if !ok {
+				return
+			}
+			callee := call.Common().StaticCallee()
+			switch {
+			case isWrite(in):
+				wrs = append(wrs, in)
+			case callee != nil && (writeField[callee] || encodes(callee, 0)) && !writes(callee, 0):
+				encs = append(encs, in)
+			}
+		})
+		for _, e := range encs {
+			for _, w := range wrs {
+				if existsPath(fn, e, func(x ssa.Instruction) bool { return x == w }, nil) == nil {
+					continue
+				}
+				n++
+				ok := oneCriticalSection(fn, e, w, "mu") || oneCriticalSection(fn, e, w, "hmu")
+				c.Check(rule, ord.next(fn, "encode-and-write-atomic"), w.Pos(), ok, "the encoding and the frame write run under one hold of the connection mutex", "a header block is HPACK-encoded and written to the socket in different critical sections (or with no lock around the write): two streams of the connection can put their blocks on the wire in the opposite order of their encoding, the peer's dynamic table diverges, and header fields of one exchange are decoded into another")
+			}
+		}
+	}
+	if n < 4 {
+		c.Unresolved(rule, fmt.Sprintf("(encode, write) pairs in the M* connection methods (found %d)", n))
+	}
+}
